@@ -1,1 +1,271 @@
+"""GenFold.v: compile-time folding actions of grammar.y and the VM cases of exec.c, translated
+to Gallina over coq/Base/CSem.v on every run."""
+import os, re
+import gen, cexpr, build
+from gen import GenError, REPO
 
+FOLD_OPS = [  # (name, production head regex)
+    ("add", r"primary_expression\s+'\+'\s+primary_expression"),
+    ("sub", r"primary_expression\s+'-'\s+primary_expression"),
+    ("mul", r"primary_expression\s+'\*'\s+primary_expression"),
+    ("div", r"primary_expression\s+'\\\\'\s+primary_expression"),
+    ("mod", r"primary_expression\s+'%'\s+primary_expression"),
+    ("bxor", r"primary_expression\s+'\^'\s+primary_expression"),
+    ("band", r"primary_expression\s+'&'\s+primary_expression"),
+    ("bor", r"primary_expression\s+'\|'\s+primary_expression"),
+    ("shl", r"primary_expression\s+_SHIFT_LEFT_\s+primary_expression"),
+    ("shr", r"primary_expression\s+_SHIFT_RIGHT_\s+primary_expression"),
+    ("neg", r"'-'\s+primary_expression\s+%prec\s+UNARY_MINUS"),
+    ("bnot", r"'~'\s+primary_expression"),
+]
+VM_OPS = ["OP_INT_ADD", "OP_INT_SUB", "OP_INT_MUL", "OP_INT_DIV", "OP_MOD", "OP_BITWISE_XOR", "OP_BITWISE_AND",
+          "OP_BITWISE_OR", "OP_SHL", "OP_SHR", "OP_INT_MINUS", "OP_BITWISE_NOT",
+          "OP_INT_EQ", "OP_INT_NEQ", "OP_INT_LT", "OP_INT_GT", "OP_INT_LE", "OP_INT_GE"]
+REDUCE_OPS = {"add": "+", "sub": "-", "mul": "*", "div": "\\\\"}
+
+
+def match_brace(txt, i):
+    """txt[i] == '{' ; returns index after the matching '}' skipping strings, chars and comments."""
+    assert txt[i] == "{"
+    depth = 0
+    n = len(txt)
+    while i < n:
+        ch = txt[i]
+        if ch == '"' or ch == "'":
+            q = ch
+            i += 1
+            while i < n and txt[i] != q:
+                if txt[i] == "\\":
+                    i += 1
+                i += 1
+        elif txt.startswith("//", i):
+            while i < n and txt[i] != "\n":
+                i += 1
+        elif txt.startswith("/*", i):
+            i = txt.index("*/", i) + 1
+        elif ch == "{":
+            depth += 1
+        elif ch == "}":
+            depth -= 1
+            if depth == 0:
+                return i + 1
+        i += 1
+    raise GenError("translator cannot parse: unbalanced braces")
+
+
+def production_body(txt, head_re):
+    ms = list(re.finditer(r"\|\s*" + head_re + r"\s*\{", txt))
+    if len(ms) != 1:
+        raise GenError("translator cannot parse grammar.y: %d productions match %s" % (len(ms), head_re))
+    i = ms[0].end() - 1
+    j = match_brace(txt, i)
+    return txt[i + 1:j - 1]
+
+
+def case_body(txt, op):
+    m = re.search(r"^\s*case\s+%s\s*:" % op, txt, re.M)
+    if not m:
+        raise GenError("translator cannot parse exec.c: no case " + op)
+    j = m.end()
+    # until the next 'case ' or 'default:' at the same nesting level
+    depth = 0
+    i = j
+    while i < len(txt):
+        if txt[i] == '"':
+            i += 1
+            while txt[i] != '"':
+                if txt[i] == "\\":
+                    i += 1
+                i += 1
+        elif txt[i] == "{":
+            depth += 1
+        elif txt[i] == "}":
+            if depth == 0:
+                break
+            depth -= 1
+        elif depth == 0 and re.match(r"(case\s+\w+\s*:|default\s*:)", txt[i:]):
+            break
+        i += 1
+    return txt[j:i]
+
+
+class Emitter:
+    """statements -> Gallina term of type stmt"""
+
+    def __init__(self, env, mode):
+        self.env = dict(env)
+        self.mode = mode    # 'fold' or 'vm'
+
+    def ex(self, e):
+        return "(fun s : fstate => %s)" % cexpr.emit_expr(e, self.env)
+
+    def set_value(self, e):
+        e = cexpr.expand_macros(e)
+        if e[0] == "cond":
+            return cexpr.emit_cond(e[1], self.env, self.set_value(e[2]), self.set_value(e[3]))
+        return "(s_set_value %s)" % self.ex(e)
+
+    def opaque_success(self, e):
+        return e[0] == "call" and e[1] in ("yr_parser_emit", "yr_parser_reduce_operation", "yr_parser_emit_with_arg")
+
+    def stmts(self, items):
+        if not items:
+            return "s_skip"
+        s, rest = items[0], items[1:]
+        k = s[0]
+        if k == "decl":
+            name, init = s[1], s[2]
+            if name == "result":
+                if init is None:
+                    return self.stmts(rest)
+                head = "(s_set_result (fun s : fstate => CVal 0))" if self.opaque_success(init) else \
+                    "(s_set_result %s)" % self.ex(init)
+                return "(s_seq %s %s)" % (head, self.stmts(rest))
+            if init is None:
+                raise GenError("translator cannot parse: uninitialised local " + name)
+            v = cexpr.emit_expr(init, self.env)
+            old = self.env.get(name)
+            self.env[name] = name
+            r = "(let %s := %s in %s)" % (name, v, self.stmts(rest))
+            if old is None:
+                del self.env[name]
+            else:
+                self.env[name] = old
+            return r
+        return "(s_seq %s %s)" % (self.stmt(s), self.stmts(rest)) if rest else self.stmt(s)
+
+    def stmt(self, s):
+        k = s[0]
+        if k == "block":
+            return self.stmts(s[1])
+        if k == "if":
+            return cexpr.emit_cond(s[1], self.env, self.stmt(s[2]), self.stmt(s[3]))
+        if k == "break":
+            return "s_stop"
+        if k == "assign":
+            tgt = cexpr.spelling(s[1])
+            if tgt in ("$$.value.integer", "r1.i"):
+                return self.set_value(s[2])
+            if tgt == "result":
+                if self.opaque_success(s[2]):
+                    return "(s_set_result (fun s : fstate => CVal 0))"
+                return "(s_set_result %s)" % self.ex(s[2])
+            if tgt == "$$.type":
+                return "s_skip"
+            raise GenError("translator cannot parse: assignment to %s" % tgt)
+        if k == "expr":
+            e = s[1]
+            if e[0] == "call":
+                f, args = e[1], e[2]
+                if f in ("check_type", "yr_compiler_set_error_extra_info_fmt", "yr_compiler_set_error_extra_info",
+                         "YR_DEBUG_FPRINTF", "push", "pop"):
+                    return "s_skip"
+                if f == "fail_if_error" and len(args) == 1:
+                    if self.opaque_success(args[0]):
+                        return "s_skip"
+                    return "(s_fail_if %s)" % self.ex(args[0])
+                if f == "ensure_defined" and len(args) == 1:
+                    return cexpr.emit_cond(("call", "is_undef", [args[0]]), self.env,
+                                           "(s_seq (s_set_value (fun s : fstate => CVal YR_UNDEFINED)) s_stop)", "s_skip")
+            raise GenError("translator cannot parse statement %r" % (e,))
+        raise GenError("translator cannot parse statement kind %s" % k)
+
+
+COMMON_ENV = {"INT64_MAX": "(CVal INT64_MAX)", "INT64_MIN": "(CVal INT64_MIN)", "YR_UNDEFINED": "(CVal YR_UNDEFINED)",
+              "ERROR_SUCCESS": "(CVal ERROR_SUCCESS)", "true": "(CVal 1)", "false": "(CVal 0)"}
+
+
+@gen.register("GenFold.v")
+def gen_fold():
+    gy = open(os.path.join(REPO, "libyara", "grammar.y"), encoding="latin-1").read()
+    ex = open(os.path.join(REPO, "libyara", "exec.c"), encoding="latin-1").read()
+    out = ["(* GENERATED from libyara/grammar.y and libyara/exec.c by lib/genfold.py: do not edit *)\n",
+           "From Coq Require Import ZArith List.\nFrom YV Require Import gen.GenConsts Base.CSem.\n",
+           "Import ListNotations.\nLocal Open Scope Z_scope.\n\n"]
+    consts = {}
+    for m in re.finditer(r"^Definition (\w+) : Z", open(os.path.join(gen.GEN_DIR, "GenConsts.v")).read(), re.M):
+        consts[m.group(1)] = True
+    pairs = []
+    for name, head in FOLD_OPS:
+        body = production_body(gy, head)
+        try:
+            ast = cexpr.parse_stmts(body)
+        except cexpr.ParseError as e:
+            raise GenError("translator cannot parse grammar.y action of %s: %s" % (name, e))
+        env = dict(COMMON_ENV)
+        unary = name in ("neg", "bnot")
+        for d in ("$1", "$2", "$3"):
+            env[d + ".type"] = "(CVal EXPRESSION_TYPE_INTEGER)"
+        env["EXPRESSION_TYPE_INTEGER"] = "(CVal EXPRESSION_TYPE_INTEGER)"
+        env["EXPRESSION_TYPE_FLOAT"] = "(CVal EXPRESSION_TYPE_FLOAT)"
+        env["result"] = "(CVal (f_result s))"
+        if unary:
+            env["$2.value.integer"] = "(CVal a)"
+        else:
+            env["$1.value.integer"] = "(CVal a)"
+            env["$3.value.integer"] = "(CVal b)"
+        for cname in re.findall(r"\bERROR_[A-Z_]+\b", body):
+            if cname not in consts:
+                raise GenError("translator: unknown constant " + cname)
+            env[cname] = "(CVal %s)" % cname
+        try:
+            term = Emitter(env, "fold").stmt(ast)
+        except cexpr.ParseError as e:
+            raise GenError("translator cannot translate grammar.y action of %s: %s" % (name, e))
+        args = "(a : Z)" if unary else "(a b : Z)"
+        out.append("Definition fold_%s %s : foldres :=\n  run_stmt %s fold_result init_state.\n\n" % (name, args, term))
+        # which opcode the production emits
+        m = re.search(r"yr_parser_emit\(\s*yyscanner\s*,\s*(OP_\w+)", body)
+        if m:
+            pairs.append((name, m.group(1)))
+        elif name in REDUCE_OPS:
+            pairs.append((name, "reduce:" + REDUCE_OPS[name]))
+        else:
+            raise GenError("translator cannot tell which opcode the %s production emits" % name)
+    for op in VM_OPS:
+        body = case_body(ex, op)
+        try:
+            ast = cexpr.parse_stmts(body)
+        except cexpr.ParseError as e:
+            raise GenError("translator cannot parse exec.c case %s: %s" % (op, e))
+        items = [s for s in ast[1] if not (s[0] == "expr" and s[1][0] == "call" and s[1][1] == "YR_DEBUG_FPRINTF")]
+        pops = []
+        while items and items[0][0] == "expr" and items[0][1][0] == "call" and items[0][1][1] == "pop":
+            pops.append(cexpr.spelling(items[0][1][2][0]))
+            items = items[1:]
+        env = dict(COMMON_ENV)
+        if pops == ["r2", "r1"]:
+            unary = False
+            env["r2.i"] = "(CVal b)"
+        elif pops == ["r1"]:
+            unary = True
+        else:
+            raise GenError("translator cannot parse exec.c case %s: unexpected pops %r" % (op, pops))
+        env["r1.i"] = "(match f_value s with Some v => CVal v | None => CTrap end)"
+        try:
+            term = Emitter(env, "vm").stmts(items)
+        except cexpr.ParseError as e:
+            raise GenError("translator cannot translate exec.c case %s: %s" % (op, e))
+        args = "(a : Z)" if unary else "(a b : Z)"
+        out.append("Definition vm_%s %s : vmres :=\n  run_stmt %s vm_result {| f_result := 0; f_value := Some a; f_status := Running |}.\n\n"
+                   % (op, args, term))
+    # opcode chosen by yr_parser_reduce_operation for integer operands: evaluated by running parser.c's own function
+    b = build.ensure_build("plain")
+    prog = '#include <stdio.h>\n#include "parser.c"\nint main(){\n' + "".join(
+        'printf("%%s %%d\\n", "%s", _yr_parser_operator_to_opcode("%s", EXPRESSION_TYPE_INTEGER));\n' % (n, o)
+        for n, o in REDUCE_OPS.items()) + "return 0;}\n"
+    res, err = gen._compile_run(prog, extra_inc=[os.path.join(b, "libyara.a"), "-lcrypto", "-lm", "-lpthread"])
+    if res is None:
+        raise GenError("translator cannot evaluate _yr_parser_operator_to_opcode: " + err[:400])
+    opc = dict(l.split() for l in res.strip().split("\n"))
+    cv = {}
+    for m in re.finditer(r"^Definition (\w+) : Z := \(?(-?\d+)\)?%Z", open(os.path.join(gen.GEN_DIR, "GenConsts.v")).read(), re.M):
+        cv[m.group(1)] = int(m.group(2))
+    out.append("(* the VM case executed for the opcode that each folding action emits (integer operands) *)\n")
+    for name, op in pairs:
+        num = cv[op] if not op.startswith("reduce:") else int(opc[name])
+        cands = [v for v in VM_OPS if cv.get(v) == num]
+        if len(cands) != 1:
+            raise GenError("translator: production %s emits opcode %s which is not a modelled VM case" % (name, num))
+        out.append("Definition vm_of_fold_%s := vm_%s.\n" % (name, cands[0]))
+    return "".join(out)
